@@ -512,6 +512,8 @@ def run_case(case):
             _run_bad(bct, case, res)
         elif kind == 'big':
             _run_big(bct, case, res)
+        elif kind == 'size':
+            _run_size(bct, case, res)
         elif kind == 'seq':
             _run_seq(bct, case, res)
         elif kind == 'probe':
@@ -696,6 +698,307 @@ def _run_probe(bct, case, res):
         if base == 'floyd':
             base = 'distance_wei_floyd'
         res['fails'].append((base, 'result-depends-on-history', {'probe': r, 'disagreement': d}))
+
+
+# ------------------------------------------------------------------ size axis (n = 33 .. 300)
+
+def bfs_fast(A):
+    """hop distances by level-by-level search on boolean rows (vectorised; independent of bfs_oracle and of bct)"""
+    B = np.asarray(A) != 0; n = len(B)
+    D = np.full((n, n), INF)
+    for s in range(n):
+        seen = np.zeros(n, dtype=bool); seen[s] = True; D[s, s] = 0
+        frontier = seen.copy(); level = 0
+        while frontier.any():
+            level += 1
+            nxt = B[frontier].any(axis=0) & ~seen
+            D[s, nxt] = level; seen |= nxt; frontier = nxt
+    return D
+
+
+def dijkstra_oracle(Lm):
+    """plain one-node-at-a-time Dijkstra per source, vectorised relaxation (lengths >= 0, inf = no connection)"""
+    Lm = np.asarray(Lm, dtype=float); n = len(Lm)
+    D = np.full((n, n), INF)
+    for s in range(n):
+        d = np.full(n, INF); d[s] = 0.0; done = np.zeros(n, dtype=bool)
+        for _ in range(n):
+            cand = np.where(done, INF, d); u = int(np.argmin(cand))
+            if math.isinf(cand[u]):
+                break
+            done[u] = True
+            d = np.minimum(d, d[u] + Lm[u])
+        D[s] = d
+    return D
+
+
+def hops_certificate(D, H, Lm, tol=0.0):
+    """exact certificate that H[i,j] is the edge count of a minimum-length walk i -> j, for every i != j with finite D: there
+    is a k (k = i allowed, with H[i,i] read as 0) with a connection k -> j, D[i,k] + L[k,j] = D[i,j] and H[i,k] = H[i,j] - 1;
+    unreachable pairs must have H = 0. Returns None or the first offending (i, j)."""
+    D = np.asarray(D, dtype=float); H = np.asarray(H, dtype=float).copy(); n = len(D)
+    H[np.arange(n), np.arange(n)] = 0
+    Dz = D.copy(); Dz[np.arange(n), np.arange(n)] = 0
+    for j in range(n):
+        fin = np.isfinite(D[:, j]); fin[j] = False
+        bad0 = (~np.isfinite(D[:, j])) & (H[:, j] != 0); bad0[j] = False
+        if bad0.any():
+            return int(np.argmax(bad0)), j
+        if not fin.any():
+            continue
+        lj = Lm[:, j]
+        with np.errstate(invalid='ignore'):
+            tight = np.abs(Dz + lj[None, :] - D[:, [j]]) <= tol * np.maximum(1.0, np.abs(D[:, [j]]))
+        ok = (tight & np.isfinite(lj)[None, :] & (H == H[:, [j]] - 1)).any(axis=1)
+        badj = fin & ~ok
+        if badj.any():
+            return int(np.argmax(badj)), j
+    return None
+
+
+def size_graph(spec):
+    """deterministic large test graph from a small spec (so that a replay file stays small)"""
+    rs = np.random.RandomState(spec['seed']); n = spec['n']; t = spec['type']
+    A = np.zeros((n, n))
+    if t == 'dense':                      # dense random, density p
+        A = (rs.rand(n, n) < spec['p']).astype(float)
+        if not spec.get('directed'):
+            A = np.triu(A, 1); A = A + A.T
+    elif t == 'hubs':                     # two non-adjacent hubs 0, 1 sharing exactly k neighbours (+ a sparse rest)
+        k = spec['k']
+        A[0, 2:2 + k] = A[2:2 + k, 0] = 1; A[1, 2:2 + k] = A[2:2 + k, 1] = 1
+        for x in range(2 + k, n):
+            y = rs.randint(2, 2 + k); A[x, y] = A[y, x] = 1
+    elif t == 'relays':                   # k directed relays 0 -> x -> 1
+        k = spec['k']; A[0, 2:2 + k] = 1; A[2:2 + k, 1] = 1
+        for x in range(2 + k, n):
+            A[1, x] = 1
+    elif t == 'chain':                    # undirected chain with a few chords: diameter close to n
+        p = rs.permutation(n)
+        for x in range(n - 1):
+            A[p[x], p[x + 1]] = A[p[x + 1], p[x]] = 1
+        for _ in range(spec.get('chords', 0)):
+            x = rs.randint(n - 3); A[p[x], p[x + 2]] = A[p[x + 2], p[x]] = 1
+    elif t == 'ring':                     # directed ring
+        p = rs.permutation(n)
+        for x in range(n):
+            A[p[x], p[(x + 1) % n]] = 1
+    elif t == 'outdeg1':                  # sparse digraph: most nodes have exactly one out-connection, a few have more, some none
+        for x in range(n):
+            if rs.rand() < .9:
+                y = rs.randint(n)
+                if y != x:
+                    A[x, y] = 1
+        for _ in range(n // 10):
+            x, y = rs.randint(n, size=2)
+            if x != y:
+                A[x, y] = 1
+    elif t == 'lollipop':
+        A = lollipop(spec['c'], n - spec['c'])
+    np.fill_diagonal(A, 0)
+    return A
+
+
+def _run_size(bct, case, res):
+    """size axis: every routine of C03 / C12 on graphs with n = 33 .. 300 (dense, hubs sharing >= 256 neighbours, relays, long
+    chains, rings, out-degree-1 digraphs, lollipops), judged by vectorised BFS / Dijkstra oracles (scipy.sparse.csgraph as a
+    second oracle for the oracles) and exact hop certificates; Lean replay for n <= 40."""
+    spec = case['spec']; A = size_graph(spec); n = len(A)
+    only = case.get('only') == 'floyd'
+    rs = np.random.RandomState(spec['seed'] + 1)
+    hop = bfs_fast(A)
+    res['stats']['disconnected'] = int(np.isinf(hop).any()); res['stats']['multihop'] = 1
+    res['stats']['size:n=%d' % n] = 1
+    nnz = int(np.count_nonzero(A))
+    # integer lengths on the same graph (powers of two so that W = 1/L and 1/W are exact)
+    Lw = A * rs.choice([1.0, 2.0, 4.0], size=A.shape)
+    if not spec.get('directed', spec['type'] in ('relays', 'ring', 'outdeg1')):
+        Lw = np.triu(Lw, 1); Lw = Lw + Lw.T
+    Lm = _lenmat(Lw)
+    dist = dijkstra_oracle(Lm)
+    try:        # second oracle, for the oracles only
+        from scipy.sparse.csgraph import shortest_path
+        from scipy.sparse import csr_matrix
+        if not (np.array_equal(shortest_path(csr_matrix(A), method='D', unweighted=True), hop) and
+                np.allclose(shortest_path(csr_matrix(Lw), method='D'), dist, rtol=0, atol=0, equal_nan=True)):
+            res['stats']['oracle_disagreement'] = 1
+            res['fails'].append(('harness', 'oracles-disagree', {'spec': spec}))
+    except ImportError:
+        pass
+    od = offdiag(n)
+
+    def hopcheck(func, D, H, LmX, oracleX, tol=0.0):
+        bad = hops_certificate(D, H, LmX, tol)
+        if bad is not None:
+            i, j = bad
+            res['fails'].append((func, 'edge-count', {'i': i, 'j': j, 'hops': float(np.asarray(H)[i, j]), 'dist': float(oracleX[i, j]), 'spec': spec}))
+
+    def small(info):
+        return dict(info, spec=spec)
+
+    def cmpd(func, D, oracleX, diag_zero=True, tol=0.0):
+        k0 = len(res['fails'])
+        _cmp_dist(res, func, D, oracleX, tol, diag_zero)
+        for k in range(k0, len(res['fails'])):
+            f, pr, info = res['fails'][k]
+            D_ = np.asarray(D, dtype=float)
+            bad = np.argwhere((D_ != oracleX) & od)
+            res['fails'][k] = (f, pr, {'spec': spec, 'first_bad_cell': bad[0].tolist() if len(bad) else None,
+                                       'got': float(D_[tuple(bad[0])]) if len(bad) else None,
+                                       'oracle': float(oracleX[tuple(bad[0])]) if len(bad) else None})
+
+    def floyd(X, transform, LmX, oracleX, exact_line, tol=0.0):
+        name = 'distance_wei_floyd' + ('' if transform is None else ':' + transform)
+        st, out = _bcall(res, name, bct.distance_wei_floyd, _rep(X, case, allow_int=transform is None, f32=transform is None), transform, t=20)
+        if not _status(res, name, st, out, case):
+            return None
+        SPL, hops, Pmat = (np.asarray(x) for x in out)
+        cmpd(name, SPL, oracleX, tol=tol)
+        hopcheck(name, SPL, hops, LmX, oracleX, tol)
+        # retrieve: a sample of ordered pairs (all of them for n <= 40)
+        pairs = [(a, b) for a in range(n) for b in range(n)] if n <= 40 else \
+            [tuple(x) for x in rs.randint(n, size=(1500, 2))] + [(a, a) for a in range(0, n, 37)]
+        paths = {}
+        for a, b in pairs:
+            st2, p = call(bct.retrieve_shortest_path, a, b, hops, Pmat, t=3, retry=10)
+            res['stats']['calls:retrieve_shortest_path'] = res['stats'].get('calls:retrieve_shortest_path', 0) + 1
+            if st2 != 'ok':
+                res['fails'].append(('retrieve_shortest_path', 'raises' if st2 == 'exc' else 'does-not-return', small({'s': a, 't': b, 'exception': p})))
+                continue
+            pl = [int(x) for x in np.asarray(p).ravel()] if len(p) else []
+            paths[(a, b)] = pl
+            if a == b:
+                if pl:
+                    res['fails'].append(('retrieve_shortest_path', 'self-pair-empty', small({'s': a, 'path': pl})))
+                continue
+            if (len(pl) == 0) != math.isinf(oracleX[a, b]):
+                res['fails'].append(('retrieve_shortest_path', 'empty-iff-unreachable', small({'s': a, 't': b, 'path': pl[:20]})))
+            elif pl:
+                bad = check_path(pl, a, b, LmX, hops[a, b], SPL[a, b], tol)
+                if bad is None and abs(SPL[a, b] - oracleX[a, b]) > tol * max(1.0, abs(oracleX[a, b])):
+                    bad = 'minimum-length'
+                if bad:
+                    res['fails'].append(('retrieve_shortest_path', bad, small({'s': a, 't': b, 'path': pl[:20], 'hops': float(hops[a, b])})))
+        res['stats']['paths_checked'] = res['stats'].get('paths_checked', 0) + len(paths)
+        if exact_line and n <= 40:
+            allp = [paths.get((a, b)) for a in range(n) for b in range(n) if a != b]
+            if all(x is not None for x in allp):
+                res['lines'].append(('floyd n=%d A=%s transform=%s' % (n, mstr(X), transform or 'none'),
+                                     [('SPL', 'exact', mstr(SPL)), ('hops', 'exact', istr(hops)), ('P', 'exact', istr(Pmat)),
+                                      ('paths', 'exact', ';'.join(pstr(x) for x in allp) or '-')]))
+        return SPL
+
+    W = np.zeros_like(Lw); W[Lw != 0] = 1.0 / Lw[Lw != 0]
+    zero_len = np.where(A != 0, 0.0, INF)
+    zero_dist = np.where(np.isfinite(hop), 0.0, INF)
+    SPLb = floyd(A, None, _lenmat(A), hop, True)
+    floyd(Lw, None, Lm, dist, True)
+    floyd(W, 'inv', Lm, dist, False)
+    floyd(A, 'log', zero_len, zero_dist, False)          # weights exactly 1: every length is 0
+    if only:
+        return
+    # --- binary routines
+    st, out = _bcall(res, 'distance_bin', bct.distance_bin, _rep(A, case), t=30)
+    Db = None
+    if _status(res, 'distance_bin', st, out, case):
+        Db = np.asarray(out, dtype=float); cmpd('distance_bin', Db, hop)
+    st, out = _bcall(res, 'reachdist', bct.reachdist, _rep(A, case, allow_int=REACHDIST_INT_OK), t=30)
+    Dr = None
+    if _status(res, 'reachdist', st, out, case):
+        Dr = np.asarray(out[1], dtype=float); cmpd('reachdist', Dr, hop, diag_zero=False)
+        k0 = len(res['fails']); _cmp_flag(res, 'reachdist', out[0], out[1], hop)
+        res['fails'][k0:] = [(f, pr, {'spec': spec}) for f, pr, _ in res['fails'][k0:]]
+    Dbd = None
+    if nnz * n <= 4000000:                 # the Python BFS of breadth costs about nnz steps per source
+        st, out = _bcall(res, 'breadthdist', bct.breadthdist, _rep(A, case), t=60)
+        if _status(res, 'breadthdist', st, out, case):
+            Dbd = np.asarray(out[1], dtype=float); cmpd('breadthdist', Dbd, hop, diag_zero=False)
+            k0 = len(res['fails']); _cmp_flag(res, 'breadthdist', out[0], out[1], hop)
+            res['fails'][k0:] = [(f, pr, {'spec': spec}) for f, pr, _ in res['fails'][k0:]]
+    for s0 in [int(x) for x in rs.randint(n, size=3)]:
+        st, out = _bcall(res, 'breadth', bct.breadth, _rep(A, case), s0, t=20)
+        if _status(res, 'breadth', st, out, case):
+            dd = np.asarray(out[0], dtype=float); m = np.arange(n) != s0
+            if not np.array_equal(dd[m], hop[s0][m]):
+                res['fails'].append(('breadth', 'min-length', small({'source': s0})))
+            br = np.asarray(out[1], dtype=float)
+            okb = br[s0] == -1 and all((not np.isfinite(hop[s0, v])) or v == s0 or
+                                       (0 <= int(br[v]) < n and A[int(br[v]), v] != 0 and hop[s0, int(br[v])] + 1 == hop[s0, v]) for v in range(n))
+            if not okb:
+                res['fails'].append(('breadth', 'branch-predecessor', small({'source': s0})))
+    st, out = _bcall(res, 'efficiency_bin', bct.efficiency_bin, _rep(A, case), t=30)
+    if _status(res, 'efficiency_bin', st, out, case):
+        want = meaninv_offdiag(hop)
+        if not close(float(out), want):
+            res['fails'].append(('efficiency_bin', 'mean-inverse', small({'E': float(out), 'oracle': want})))
+    st, out = _bcall(res, 'distance_wei', bct.distance_wei, _rep(A, case), t=60)
+    if _status(res, 'distance_wei', st, out, case):
+        cmpd('distance_wei', out[0], hop); hopcheck('distance_wei', out[0], out[1], _lenmat(A), hop)
+    # --- weighted routines
+    st, out = _bcall(res, 'distance_wei', bct.distance_wei, _rep(Lw, case), t=60)
+    Dw = None
+    if _status(res, 'distance_wei', st, out, case):
+        Dw = np.asarray(out[0], dtype=float); cmpd('distance_wei', Dw, dist); hopcheck('distance_wei', out[0], out[1], Lm, dist)
+    st, out = _bcall(res, 'efficiency_wei', bct.efficiency_wei, _rep(W, case, f32=False), t=60)
+    if _status(res, 'efficiency_wei', st, out, case):
+        want = meaninv_offdiag(dist)
+        if not close(float(out), want):
+            res['fails'].append(('efficiency_wei', 'mean-inverse', small({'E': float(out), 'oracle': want})))
+    if n <= 65 or nnz <= 6 * n:            # rout_efficiency also runs Floyd on every neighbourhood: keep it to small / sparse inputs
+        for X, tr, oracleX in ((Lw, None, dist), (W, 'inv', dist), (A, 'log', zero_dist)):
+            st, out = _bcall(res, 'rout_efficiency', bct.rout_efficiency, _rep(X, case, allow_int=tr is None, f32=False), tr, t=60)
+            if _status(res, 'rout_efficiency:' + str(tr), st, out, case):
+                want = meaninv_offdiag(oracleX)
+                if not close(float(out[0]), want):
+                    res['fails'].append(('rout_efficiency', 'mean-inverse', small({'transform': tr, 'GErout': float(out[0]), 'oracle': want,
+                                                                                    'cond': {'zero_distance': bool(np.any(oracleX[od] == 0)), 'transform': tr or 'none'}})))
+    # --- charpath on every distance matrix obtained above (all flags; positional oracle inside)
+    for nm, Dn in (('distance_bin', Db), ('reachdist', Dr), ('breadthdist', Dbd), ('distance_wei', Dw), ('distance_wei_floyd', SPLb)):
+        if Dn is not None:
+            k0 = len(res['fails'])
+            _charpath_block(bct, res, case, Dn, None, nm, lean=False)
+            res['fails'][k0:] = [(f, pr, {a: b for a, b in info.items() if a not in ('D', 'ecc', 'oracle')} | {'spec': spec})
+                                 for f, pr, info in res['fails'][k0:]]
+    # --- Lean replay where fast enough
+    if n <= 40 and Db is not None and Dr is not None and Dbd is not None:
+        st2, o2 = call(bct.breadthdist, A.copy(), t=20, retry=10); st3, o3 = call(bct.reachdist, A.copy(), t=20, retry=10)
+        if st2 == st3 == 'ok':
+            res['lines'].append(('bin n=%d A=%s' % (n, mstr(A)),
+                                 [('D', 'exact', mstr(Db)), ('bR', 'exact', istr(o2[0])), ('bD', 'exact', mstr(o2[1])),
+                                  ('rR', 'exact', istr(o3[0])), ('rD', 'exact', mstr(o3[1])), ('cert', 'exact', '111')]))
+        if Dw is not None:
+            st4, o4 = call(bct.distance_wei, Lw.copy(), t=20, retry=10)
+            if st4 == 'ok':
+                res['lines'].append(('dijkstra n=%d A=%s' % (n, mstr(Lw)), [('D', 'exact', mstr(o4[0])), ('B', 'exact', istr(o4[1]))]))
+
+
+def size_specs(rs, tier):
+    """the size axis: quick = one slice, thorough = the bulk"""
+    big = tier == 'thorough'
+    S = []
+    def add(**k):
+        k.setdefault('seed', int(rs.randint(2 ** 31))); S.append(k)
+    add(type='dense', n=33, p=.5); add(type='chain', n=33, chords=3); add(type='ring', n=34); add(type='outdeg1', n=40)
+    add(type='dense', n=34, p=.3, directed=True); add(type='hubs', n=40, k=30)
+    add(type='dense', n=64, p=.9); add(type='chain', n=65, chords=5); add(type='outdeg1', n=65); add(type='ring', n=64)
+    add(type='dense', n=100, p=.93); add(type='chain', n=100, chords=0); add(type='hubs', n=129, k=127); add(type='outdeg1', n=129)
+    add(type='relays', n=258, k=256); add(type='hubs', n=258, k=256); add(type='dense', n=300, p=.93)
+    add(type='dense', n=280, p=.95, directed=True); add(type='chain', n=300, chords=0); add(type='ring', n=257)
+    add(type='outdeg1', n=300); add(type='lollipop', n=260, c=50)
+    if big:
+        add(type='hubs', n=300, k=257); add(type='chain', n=257, chords=40)
+        for _ in range(12):
+            for n in (33, 34, 40, 64, 65, 100, 129):
+                t = ['dense', 'chain', 'ring', 'outdeg1', 'hubs'][rs.randint(5)]
+                add(type=t, n=n, p=float(rs.choice([.1, .5, .9, .95])), chords=int(rs.randint(0, 8)), k=int(rs.randint(2, n - 2)),
+                    directed=bool(rs.rand() < .5))
+        for _ in range(6):
+            for n in (257, 258, 270, 300):
+                t = ['dense', 'chain', 'ring', 'outdeg1', 'hubs', 'relays', 'lollipop'][rs.randint(7)]
+                add(type=t, n=n, p=float(rs.choice([.9, .93, .96])), chords=int(rs.randint(0, 20)), k=int(rs.choice([255, 256, 257, n - 2])),
+                    c=int(rs.choice([30, 50, 80])), directed=bool(rs.rand() < .4))
+        add(type='hubs', n=516, k=512); add(type='relays', n=514, k=512)
+    return [{'kind': 'size', 'A': [[0] * s_['n']], 'spec': s_, 'gen': 'size-' + s_['type']} for s_ in S]
 
 
 def lollipop(c, p):
@@ -1082,6 +1385,8 @@ def gen_dist_cases(rs, tier):
     for A in ([[0, 1, 0], [0, 0, 1], [0, 0, 0]], [[0, 1, 0, 0], [0, 0, .5, 0], [0, 0, 0, 1], [0, 0, 0, 0]],
               [[0, 1, 1], [1, 0, 1], [1, 1, 0]]):
         add('log', A, gen='log-weight-one-fixed')
+    # --- size axis
+    cases.extend(size_specs(rs, tier))
     # --- inexact float lengths (decimal k/10, no transform): oracle by tolerance only
     for _ in range(nr):
         n = int(rs.randint(4, 10)); directed = bool(rs.rand() < .7)
@@ -1252,7 +1557,7 @@ def timeout_rates(ck):
 def absorb(ck, cases, results, funcs=None):
     """fold the per-case results into the Check: coverage counters and violations (restricted to `funcs` if given)"""
     for c, r in zip(cases, results):
-        ck.count('kind:' + c['kind']); ck.count('n=%d' % (sum(c['lollipop']) if c.get('lollipop') else len(c['A']))); ck.count('gen:' + c.get('gen', '-'))
+        ck.count('kind:' + c['kind']); ck.count('n=%d' % (c['spec']['n'] if c.get('spec') else sum(c['lollipop']) if c.get('lollipop') else len(c['A']))); ck.count('gen:' + c.get('gen', '-'))
         if c.get('rep'):
             ck.count('rep:%s/%s' % tuple(c['rep']))
         if c.get('scale'):
